@@ -22,6 +22,8 @@ import Model.GAE
 import Model.C51
 import Model.Bandit
 import Model.Loop
+import Model.Coherence
+import Model.HeapCkpt
 
 structure St where
   heap : Heap.IOState := {}
@@ -42,6 +44,7 @@ structure St where
   c51 : C51.IOState := {}
   bandit : Bandit.IOState := {}
   loop : Loop.IOState := {}
+  coh : Coherence.IOState := {}
 
 def step (s : St) (line : String) : St × String :=
   match Util.words line with
@@ -63,6 +66,8 @@ def step (s : St) (line : String) : St × String :=
   | "c51" :: rest => let (r, o) := C51.step s.c51 rest; ({ s with c51 := r }, o)
   | "bandit" :: rest => let (r, o) := Bandit.step s.bandit rest; ({ s with bandit := r }, o)
   | "loop" :: rest => let (r, o) := Loop.step s.loop rest; ({ s with loop := r }, o)
+  | "coh" :: rest => let (r, o) := Coherence.step s.coh rest; ({ s with coh := r }, o)
+  | "ckpt" :: rest => let (r, o) := HeapCkpt.step s.heap rest; ({ s with heap := r }, o)
   | ["reset"] => ({}, "ok")
   | _ => (s, "bad-op")
 
